@@ -166,6 +166,8 @@ func infoOf(fi os.FileInfo) *Info {
 
 // Res is the observable outcome of one call.
 type Res struct {
+	// Contract: set when the call broke the io.Reader / io.Writer contract (0 <= n <= len(p))
+	Contract string `json:"contract,omitempty"`
 	Class string   `json:"class"`
 	Err   string   `json:"err,omitempty"`
 	N     int64    `json:"n,omitempty"`
@@ -204,6 +206,14 @@ func classify(err error) string {
 		return "eof"
 	}
 	return "other"
+}
+
+// ioContract notes a count outside 0..max: consumers such as io.ReadAll,
+// bytes.Buffer.ReadFrom and bufio panic on a negative count.
+func ioContract(r *Res, what string, n, max int) {
+	if n < 0 || n > max {
+		r.Contract = fmt.Sprintf("%s returned n=%d for %d bytes (io.Reader/io.Writer require 0 <= n <= len(p); io.ReadAll and bytes.Buffer.ReadFrom panic on a negative count)", what, n, max)
+	}
 }
 
 func mkRes(err error) Res {
@@ -374,9 +384,11 @@ func (e *Exec) Do(o Op) (res Res) {
 		}
 		return mkRes(f.Close())
 	case "readfile":
+		lastContract = ""
 		b, err := ReadAll(fs, o.P)
 		r := mkRes(err)
 		r.Data, r.Sum, r.N = b, sumOf(b), int64(len(b))
+		r.Contract, lastContract = lastContract, ""
 		return r
 	case "h.close":
 		f, ok := needH()
@@ -399,6 +411,7 @@ func (e *Exec) Do(o Op) (res Res) {
 		n, err := f.Write(o.D.Bytes())
 		r := mkRes(err)
 		r.N = int64(n)
+		ioContract(&r, "Write", n, o.D.Len)
 		return r
 	case "h.writestring":
 		f, ok := needH()
@@ -408,6 +421,7 @@ func (e *Exec) Do(o Op) (res Res) {
 		n, err := f.WriteString(string(o.D.Bytes()))
 		r := mkRes(err)
 		r.N = int64(n)
+		ioContract(&r, "WriteString", n, o.D.Len)
 		return r
 	case "h.writeat":
 		f, ok := needH()
@@ -417,6 +431,7 @@ func (e *Exec) Do(o Op) (res Res) {
 		n, err := f.WriteAt(o.D.Bytes(), o.O)
 		r := mkRes(err)
 		r.N = int64(n)
+		ioContract(&r, "WriteAt", n, o.D.Len)
 		return r
 	case "h.read":
 		f, ok := needH()
@@ -436,6 +451,7 @@ func (e *Exec) Do(o Op) (res Res) {
 		if n > 0 && n <= len(buf) {
 			r.Data = buf[:n]
 		}
+		ioContract(&r, "Read", n, len(buf))
 		return r
 	case "h.readat":
 		f, ok := needH()
@@ -455,6 +471,7 @@ func (e *Exec) Do(o Op) (res Res) {
 		if n > 0 && n <= len(buf) {
 			r.Data = buf[:n]
 		}
+		ioContract(&r, "ReadAt", n, len(buf))
 		return r
 	case "h.seek":
 		f, ok := needH()
@@ -532,6 +549,9 @@ func (e *Exec) putHandle(h int, f afero.File) {
 
 // ReadAll opens, reads to EOF and closes. The whole stream is consumed so the
 // restore goroutine behind the handle finishes (see known finding D9).
+// lastContract: the last io.Reader contract violation seen by ReadAll (per process; read and reset by Exec)
+var lastContract string
+
 func ReadAll(fs afero.Fs, name string) ([]byte, error) {
 	f, err := fs.Open(name)
 	if err != nil {
@@ -543,6 +563,9 @@ func ReadAll(fs afero.Fs, name string) ([]byte, error) {
 		n, err := f.Read(buf)
 		if n > 0 && n <= len(buf) {
 			out = append(out, buf[:n]...)
+		}
+		if n < 0 || n > len(buf) {
+			lastContract = fmt.Sprintf("Read returned n=%d for %d bytes (err=%v)", n, len(buf), err)
 		}
 		if err == io.EOF {
 			break
